@@ -131,14 +131,23 @@ pub fn c07(opts: &Opts) -> Report {
     for d in 1..=depth { total += n.pow(d); }
     let prefixes = emptying_prefixes();
     let ext = prefixes.len() as u64 * n * n;       // every pair of operations after every emptying prefix
+    // split:S:.. | join:S with EQUAL separators after a list-producing step, then every operation and every pair
+    let rt_prefix: Vec<Op> = vec![Op::Split(" ".into(), Range::Range(None, None, false)), Op::Split(",".into(), Range::Range(None, None, false)), Op::Join(",".into())];
+    let rt = n + n * n;
+    let rt_ref = &rt_prefix;
     let reps_ref = &reps;
     let prefixes_ref = &prefixes;
     let mut rep = run_parallel(opts, "C07",
         "every sequence of operation kinds (all 21 operations, three map bodies: well-typed string body, well-typed list body, ill-typed body) up to the tier's length, enumerated exhaustively, plus every pair of operations after each of three prefixes that empty the intermediate list; each on 7 inputs that make intermediate lists empty, singleton and long; distinct by (template, input)",
-        total + ext, &|ctx, i0| {
+        total + ext + rt, &|ctx, i0| {
             let mut ops = Vec::new();
             let d;
-            if i0 < total {
+            if i0 >= total + ext {
+                let i = i0 - total - ext;
+                ops = rt_ref.clone();
+                if i < n { ops.push(reps_ref[i as usize].clone()); } else { let j = i - n; ops.push(reps_ref[(j % n) as usize].clone()); ops.push(reps_ref[(j / n) as usize].clone()); }
+                d = 5;
+            } else if i0 < total {
                 let mut i = i0;
                 let mut dd = 1u32; let mut block = n;
                 while i >= block { i -= block; dd += 1; block = n.pow(dd); }
@@ -436,7 +445,11 @@ pub fn validate_l1(ctx: &mut Ctx, n: u64) {
 fn list_input(rng: &mut Rng) -> (String, Vec<String>) {
     let n = match rng.below(10) { 0 => 0, 1 => 1, 2..=7 => 2 + rng.below(8), 8 => 30 + rng.below(50), _ => 500 + rng.below(1500) };
     let pool = ["a", "b", "ab", "abc", "", "B", "é", "e", "日", "a ", "10", "9", "z", "aa", "ζ", "A"];
-    let mut items: Vec<String> = (0..n).map(|_| rng.pick(&pool).to_string()).collect();
+    // items that agree on their first 7-8 BYTES and differ after, with a multi-byte character across byte 8; prefixes of
+    // one another; items differing only by a trailing NUL
+    let long_pool = ["東京都港区", "東京都千代田区", "日本語学", "日本語", "日本語学校", "file-07ü.txt", "file-07é.txt", "file-07u.txt", "abcdefgé1", "abcdefgé0", "abcdefgh", "abcdefg", "a\0", "a\0\0", "1234567😀b", "1234567😀a"];
+    let use_long = rng.chance(1, 5);
+    let mut items: Vec<String> = (0..n).map(|_| if use_long { rng.pick(&long_pool).to_string() } else { rng.pick(&pool).to_string() }).collect();
     match rng.below(4) { 0 => items.sort(), 1 => { items.sort(); items.reverse(); } _ => {} }
     // items never contain the separator, so split gives exactly these items (empty list = one empty item)
     (items.join(","), if items.is_empty() { vec![String::new()] } else { items })
@@ -493,7 +506,12 @@ pub fn c15(opts: &Opts) -> Report {
             // a random composition against the model
             let n = 1 + ctx.rng.below(4);
             let mut ops = vec![Op::Split(",".into(), Range::Range(None, None, false))];
-            for _ in 0..n { ops.push(match ctx.rng.below(7) { 0 => Op::Sort(SDir::Asc), 1 => Op::Sort(SDir::Desc), 2 => Op::Unique, 3 => Op::Reverse, 4 => Op::Slice(gens::range(&mut ctx.rng)), 5 => Op::Filter(pat.into()), _ => Op::FilterNot(pat.into()) }); }
+            for _ in 0..n { ops.push(match ctx.rng.below(9) { 0 => Op::Sort(SDir::Asc), 1 => Op::Sort(SDir::Desc), 2 => Op::Unique, 3 => Op::Reverse, 4 => Op::Slice(gens::range(&mut ctx.rng)), 5 => Op::Filter(pat.into()), 6 => Op::FilterNot(pat.into()),
+                // a map between list operations: it may make equal items non-adjacent / change the order relation
+                7 => Op::Map(vec![ctx.rng.pick(&[Op::Lower, Op::Upper, Op::Trim(String::new(), TDir::Both), Op::Substring(Range::Index(-1)), Op::Substring(Range::Range(None, Some(1), false))]).clone()]),
+                _ => Op::Unique }); }
+            // the composition the laws are about, in the order sort -> map -> unique, always present once in a while
+            if i % 5 == 2 { ops = vec![Op::Split(",".into(), Range::Range(None, None, false)), Op::Sort(if i % 2 == 0 { SDir::Asc } else { SDir::Desc }), Op::Map(vec![ctx.rng.pick(&[Op::Lower, Op::Substring(Range::Index(-1)), Op::Trim(String::new(), TDir::Both)]).clone()]), Op::Unique]; }
             if items.len() <= 300 {
                 let t = triple(ctx, &ops, &x, false);
                 hist(ctx, &ops, &x, &t.real);
